@@ -805,6 +805,12 @@ func ToEntry(n Node) (e *Entry) {
 				// The key of the map used is a synthesised value which is formed by
 				// concatenating the name of this node and the included submodule,
 				// separated by a ":".
+				if a.Module == nil {
+					// The include was never linked: n is a
+					// submodule that no loaded module includes.
+					e.addError(fmt.Errorf("%s: include %s is not resolved", Source(a), a.Name))
+					continue
+				}
 				srcToIncluded := a.Module.Name + ":" + n.NName()
 				includedToSrc := n.NName() + ":" + a.Module.Name
 
